@@ -630,7 +630,7 @@ def run(chk):
     phase["compare_and_probes"] = round(time.time() - t0, 1)
     stats["phase_seconds"] = phase
 
-    if tie_broken and not found_concrete:
+    if tie_broken and not (found_concrete and chk.has_new_concrete()):
         u, m, o, d = tie_broken[0]
         rd = chk.replay_dir("tie")
         write_unit_replay(rd, u, in_range_spec(u), m, o, d)
